@@ -132,6 +132,52 @@ bulk!(c17_insert_row_wide_mixed, true, insert_row, 0, 2, 1); // one present, one
 bulk!(c17_insert_row_tall_repeat, false, insert_row, 2, 0, 0);
 bulk!(c17_insert_col_wide_new, true, insert_col, 2, 1, 0);
 bulk!(c17_insert_col_tall_repeat, false, insert_col, 0, 2, 2);
+bulk!(c17_set_col_wide_desc, true, set_col, 2, 1, 0); // rows given in decreasing order
+bulk!(c17_insert_row_tall_desc, false, insert_row, 2, 1, 0);
+
+/// bulk operations with an EMPTY iterator: set_* clears, insert_* does nothing
+#[kani::proof]
+#[kani::unwind(8)]
+fn c17_set_row_wide_empty() {
+    // (an empty slice of a non-empty array: a zero-length array makes CBMC 6.11 abort)
+    let backing = [0usize; 1];
+    let none = &backing[..0];
+    let (mut h, mut m, nr, nc) = wide();
+    h.set_row(0, none.iter());
+    for c in 0..nc {
+        m[0][c] = false;
+    }
+    agrees(&h, &m, nr, nc);
+    kani::cover!(true);
+}
+
+#[kani::proof]
+#[kani::unwind(8)]
+fn c17_set_col_tall_empty() {
+    // (an empty slice of a non-empty array: a zero-length array makes CBMC 6.11 abort)
+    let backing = [0usize; 1];
+    let none = &backing[..0];
+    let (mut h, mut m, nr, nc) = tall();
+    h.set_col(1, none.iter());
+    for r in 0..nr {
+        m[r][1] = false;
+    }
+    agrees(&h, &m, nr, nc);
+    kani::cover!(true);
+}
+
+#[kani::proof]
+#[kani::unwind(8)]
+fn c17_insert_empty_wide() {
+    // (an empty slice of a non-empty array: a zero-length array makes CBMC 6.11 abort)
+    let backing = [0usize; 1];
+    let none = &backing[..0];
+    let (mut h, m, nr, nc) = wide();
+    h.insert_row(1, none.iter());
+    h.insert_col(1, none.iter());
+    agrees(&h, &m, nr, nc);
+    kani::cover!(true);
+}
 
 /// the all-entries iterator and every view on the two fixed matrices
 #[kani::proof]
